@@ -133,6 +133,11 @@ def c03_programs(rng, n):
     out.append(prog([("u1", [("remote_exec", "c", 1), ("receive_all", "c")]),
                      ("u2", [("await", "c"), ("close", "c"), ("isclosed", "c"), ("send", "c", 150), ("waitclose", "c")])],
                     {1: [("send", "channel", 201), ("send", "channel", 202), ("receive", "channel")]}))
+    # the peer installed a callback and dropped its channel object (CHANNEL_LAST_MESSAGE: "sendonly" here); closing it locally
+    # afterwards must still flag it closed and refuse further sends
+    out.append(prog([("u1", [("remote_exec", "c", 1), ("newchannel", "d"), ("sendchan", "c", "d"), ("send", "d", 101), ("waitclose", "d"),
+                             ("close", "d"), ("isclosed", "d"), ("send", "d", 150), ("waitclose", "d"), ("close", "d"), ("open_gate", "fin"), ("waitclose", "c")])],
+                    {1: [("recvchan", "channel", "x"), ("setcallback", "x", False), ("drop", "x"), ("wait_gate", "fin")]}))
     # the remote code ends because an EOFError escapes from a receive on a second channel (which the initiator closed):
     # its own channel must close all the same
     out.append(prog([("u1", [("remote_exec", "c", 1), ("newchannel", "d"), ("sendchan", "c", "d"), ("send", "d", 101), ("close", "d"),
